@@ -217,6 +217,8 @@ var knownPure = map[string]bool{
 	"(time.Duration).Milliseconds":             true,
 	"time.Unix":                                true,
 	"(time.Time).UnixNano":                     true,
+	"(*encoding/base64.Encoding).EncodedLen":   true,
+	"(*encoding/base64.Encoding).DecodedLen":   true,
 }
 
 // writesOnlyArg: external functions that write only through the given argument
@@ -224,6 +226,8 @@ var writesOnlyArg = map[string]int{
 	"google.golang.org/protobuf/proto.Unmarshal": 1,
 	"io.ReadFull":           1,
 	"encoding/asn1.Unmarshal": 1,
+	"(*encoding/base64.Encoding).Decode": 1,
+	"(*encoding/base64.Encoding).Encode": 1,
 }
 
 func shortName(s string) string {
@@ -416,19 +420,58 @@ func (e *Engine) ghostHooks(st *State, fr *Frame, when string, site ssa.Instruct
 	if site != nil {
 		siteName = fr.sites[site]
 	}
-	_, isStatic := c.Value.(*ssa.Function)
+	defer func() {
+		if r := recover(); r != nil {
+			if se, ok := r.(specErr); ok {
+				panic(specErr{fmt.Sprintf("%s (in a %s-call hook at call %s, site %s)", se.msg, when, callee, siteName)})
+			}
+			panic(r)
+		}
+	}()
+	isStatic := false
+	switch c.Value.(type) {
+	case *ssa.Function, *ssa.Builtin, *ssa.MakeClosure:
+		isStatic = true
+	}
+	matches := func(h GhostHook) bool {
+		cal := callee
+		if h.Callee == "fn" && !c.IsInvoke() && !isStatic {
+			// legacy name of a call through a function value
+			cal = "fn"
+		}
+		if h.Callee != cal && h.Callee != siteName && !(strings.HasSuffix(h.Callee, "#0") && strings.TrimSuffix(h.Callee, "#0") == siteName) {
+			return false
+		}
+		if strings.Contains(h.Callee, "#") && h.Callee != siteName && !(strings.HasSuffix(h.Callee, "#0") && strings.TrimSuffix(h.Callee, "#0") == siteName) {
+			return false
+		}
+		return true
+	}
+	// "preserves e" inside an after-call hook: the call is assumed not to change e
+	for hi, h := range fr.contract.Ghost {
+		if h.When != "after" || len(h.Preserves) == 0 || !matches(h) {
+			continue
+		}
+		for i, cl := range h.Preserves {
+			env := &SpecEnv{e: e, st: st, fr: fr, vars: map[string]specVal{}, oldHeap: fr.oldHeap, oldNext: fr.oldNext, pkg: pkgPathOf(fr.fn)}
+			v, ok := env.eval(cl.E).v.(Term)
+			if !ok {
+				sfail("preserves %s: only scalar expressions are supported", cl.Src)
+			}
+			key := fmt.Sprintf("pres!%d!%d!%s", hi, i, siteName)
+			if when == "before" {
+				st.ghost[key] = v
+			} else if saved, have := st.ghost[key]; have {
+				e.assumed["call "+callee+" in "+displayKey(fr.fn)+": assumed to preserve "+cl.Src] = true
+				st.Assume(Eq(saved, v))
+			}
+		}
+	}
 	for _, h := range fr.contract.Ghost {
 		if h.When != when {
 			continue
 		}
-		if h.Callee == "fn" && !c.IsInvoke() && !isStatic && callee != "fn" {
-			// legacy name of a call through a function value
-			callee = "fn"
-		}
-		if h.Callee != callee && h.Callee != siteName && !(strings.HasSuffix(h.Callee, "#0") && strings.TrimSuffix(h.Callee, "#0") == siteName) {
-			continue
-		}
-		if strings.Contains(h.Callee, "#") && h.Callee != siteName && !(strings.HasSuffix(h.Callee, "#0") && strings.TrimSuffix(h.Callee, "#0") == siteName) {
+		if !matches(h) {
 			continue
 		}
 		vars := map[string]specVal{}
